@@ -84,6 +84,9 @@ func allTags(c *Contract) []string {
 		for _, cl := range l.Steps {
 			add(cl.Tags)
 		}
+		for _, cl := range l.Entries {
+			add(cl.Tags)
+		}
 		if l.Decreases != nil {
 			add(l.Decreases.Tags)
 		}
@@ -375,7 +378,9 @@ func cmdCheck(args []string) int {
 	known := 0
 	discharged := 0
 	byBackend := map[string]int{}
-	var solverTime float64
+	var solverTime, slowT float64
+	retried := []string{}
+	slowest := ""
 	var samples []map[string]string
 	var knownLines []string
 	replayBudget := 6
@@ -386,6 +391,12 @@ func cmdCheck(args []string) int {
 			solverTime += q.Time
 			if q.Result == q.Expect && q.Solver != "" {
 				byBackend[q.Solver]++
+			}
+			if q.Retried {
+				retried = append(retried, fmt.Sprintf("%s: %s after %.1fs", o.Name, q.Result, q.Time))
+			}
+			if q.Time > slowT {
+				slowT, slowest = q.Time, fmt.Sprintf("%s (%.1fs, %s)", o.Name, q.Time, q.Solver)
 			}
 		}
 		if o.Kind == "cover" {
@@ -540,6 +551,8 @@ func cmdCheck(args []string) int {
 				"functions_under_contract":              fnames,
 				"by_backend":                            byBackend,
 				"solver_time_s":                         solverTime,
+				"slowest_query":                         slowest,
+				"queries_run_again_with_a_longer_limit": retried,
 				"generate_s":                            genS,
 				"solve_wall_s":                          solveS,
 				"load_s":                                ld.loadS,
